@@ -338,6 +338,9 @@ func (r *rewriter) rewriteFile(mcrtImport string) {
 		}
 		return true
 	}
+	if r.rw["sync"] {
+		r.insertAtomicFences(f)
+	}
 	astutil.Apply(f, pre, post)
 
 	if r.rw["sync"] {
@@ -365,6 +368,80 @@ func (r *rewriter) rewriteFile(mcrtImport string) {
 			}}})
 		}
 	}
+}
+
+// usesAtomic reports whether the statement itself (not nested blocks or function literals) calls into sync/atomic:
+// a package function, or a method of one of its types.
+func (r *rewriter) usesAtomic(st ast.Stmt) bool {
+	found := false
+	ast.Inspect(st, func(n ast.Node) bool {
+		switch x := n.(type) {
+		case *ast.BlockStmt, *ast.FuncLit:
+			return n == ast.Node(st)
+		case *ast.CallExpr:
+			if sel, ok := x.Fun.(*ast.SelectorExpr); ok {
+				if id, ok := sel.X.(*ast.Ident); ok && r.isPkgIdent(id, "sync/atomic") {
+					found = true
+				}
+				if s, ok := r.info.Selections[sel]; ok && s.Obj().Pkg() != nil && s.Obj().Pkg().Path() == "sync/atomic" {
+					found = true
+				}
+			}
+		}
+		return !found
+	})
+	return found
+}
+
+// insertAtomicFences puts mcrt.AtomicFence() before and after every statement that uses sync/atomic (and at the
+// start of a loop body whose header does).
+func (r *rewriter) insertAtomicFences(f *ast.File) {
+	fence := func() ast.Stmt { return &ast.ExprStmt{X: r.call("AtomicFence")} }
+	ast.Inspect(f, func(n ast.Node) bool {
+		var list *[]ast.Stmt
+		switch x := n.(type) {
+		case *ast.BlockStmt:
+			list = &x.List
+		case *ast.CaseClause:
+			list = &x.Body
+		case *ast.CommClause:
+			list = &x.Body
+		}
+		if list == nil {
+			return true
+		}
+		var out []ast.Stmt
+		for _, st := range *list {
+			header := st
+			switch x := st.(type) {
+			case *ast.ForStmt:
+				header = &ast.ForStmt{Init: x.Init, Cond: x.Cond, Post: x.Post, Body: &ast.BlockStmt{}}
+				if r.usesAtomic(header) {
+					x.Body.List = append([]ast.Stmt{fence()}, x.Body.List...)
+				}
+			case *ast.IfStmt:
+				header = &ast.IfStmt{Init: x.Init, Cond: x.Cond, Body: &ast.BlockStmt{}}
+			case *ast.SwitchStmt:
+				header = &ast.SwitchStmt{Init: x.Init, Tag: x.Tag, Body: &ast.BlockStmt{}}
+			case *ast.BlockStmt, *ast.SelectStmt, *ast.TypeSwitchStmt, *ast.RangeStmt, *ast.LabeledStmt:
+				out = append(out, st)
+				continue
+			}
+			if !r.usesAtomic(header) {
+				out = append(out, st)
+				continue
+			}
+			r.stats["atomic-fence"]++
+			out = append(out, fence(), st)
+			switch st.(type) {
+			case *ast.ReturnStmt, *ast.BranchStmt:
+			default:
+				out = append(out, fence())
+			}
+		}
+		*list = out
+		return true
+	})
 }
 
 func isMcrtCall(ce *ast.CallExpr, name string) bool {
@@ -530,8 +607,13 @@ func (r *rewriter) rewriteCall(c *astutil.Cursor, n *ast.CallExpr) {
 		case r.isPkgFunc(n.Fun, "context", "WithDeadline"):
 			n.Fun = r.mcrt("WithDeadline")
 			r.stats["context.WithDeadline"]++
-		case r.isPkgFunc(n.Fun, "time", "NewTimer"), r.isPkgFunc(n.Fun, "time", "Tick"), r.isPkgFunc(n.Fun, "time", "NewTicker"),
-			r.isPkgFunc(n.Fun, "time", "AfterFunc"):
+		case r.isPkgFunc(n.Fun, "time", "NewTimer"):
+			n.Fun = r.mcrt("NewTimer")
+			r.stats["time.NewTimer"]++
+		case r.isPkgFunc(n.Fun, "time", "AfterFunc"):
+			n.Fun = r.mcrt("AfterFunc")
+			r.stats["time.AfterFunc"]++
+		case r.isPkgFunc(n.Fun, "time", "Tick"), r.isPkgFunc(n.Fun, "time", "NewTicker"):
 			r.errorf(n, "real-time primitive %s is not modelled by the scheduler shim", exprString(n.Fun))
 		}
 	}
